@@ -110,10 +110,18 @@ func prctl(option uintptr, args ...uintptr) error {
 }
 
 // seccomp syscall wrapper.
+// filterFlagTSyncESRCH is SECCOMP_FILTER_FLAG_TSYNC_ESRCH.
+const filterFlagTSyncESRCH FilterFlag = 1 << 4
+
 func seccomp(op uintptr, flags FilterFlag, uargs unsafe.Pointer) error {
-	_, _, e := syscall.Syscall(unix.SYS_SECCOMP, op, uintptr(flags), uintptr(uargs))
+	r1, _, e := syscall.Syscall(unix.SYS_SECCOMP, op, uintptr(flags), uintptr(uargs))
 	if e != 0 {
 		return e
+	}
+	// If the filter cannot be synchronized to all threads, the kernel does not install it and
+	// returns the ID of a thread that could not be synchronized (unless ESRCH was requested instead).
+	if r1 != 0 && flags&FilterFlagTSync != 0 && flags&filterFlagTSyncESRCH == 0 {
+		return fmt.Errorf("thread %d cannot be synchronized to the filter", r1)
 	}
 	return nil
 }
